@@ -736,8 +736,16 @@ class GuardedSingleton:
     def run_for(self, ex, s, st, d):
         import ast as _ast
         ok = (len(s.body) == 1 and isinstance(s.body[0], _ast.If) and not s.body[0].orelse and isinstance(s.body[0].test, _ast.Compare)
-              and len(s.body[0].test.ops) == 1 and isinstance(s.body[0].test.ops[0], _ast.Eq) and isinstance(s.body[0].test.left, _ast.Name)
-              and isinstance(s.target, _ast.Name) and s.body[0].test.left.id == s.target.id and not s.orelse)
+              and len(s.body[0].test.ops) == 1 and isinstance(s.body[0].test.ops[0], _ast.Eq) and isinstance(s.target, _ast.Name) and not s.orelse)
+        other = None
+        if ok:
+            # the loop variable may stand on either side of `==` (the compared objects do not define __eq__: identity, symmetric)
+            lft, rgt = s.body[0].test.left, s.body[0].test.comparators[0]
+            if isinstance(lft, _ast.Name) and lft.id == s.target.id:
+                other = rgt
+            elif isinstance(rgt, _ast.Name) and rgt.id == s.target.id:
+                other = lft
+            ok = other is not None and not any(isinstance(nn, _ast.Name) and nn.id == s.target.id for nn in _ast.walk(other))
         if not ok:
             raise Unsupported(f"anchor-lost: loop `{self.name}` is no longer of the shape `for m in D.values(): if m == X: BODY`")
         for nn in _ast.walk(s):
@@ -748,7 +756,7 @@ class GuardedSingleton:
         for s1, it in ex.ev(s.iter, st, d):
             if it.ty[0] != "dictvalues":
                 raise Unsupported("guarded-singleton loop over a non-dict")
-            for s2, x in ex.ev(s.body[0].test.comparators[0], s1, d):
+            for s2, x in ex.ev(other, s1, d):
                 isval = ex.contains(s2, it, x, d)
                 sa = s2.copy(); sa.assume(isval)
                 if feasible(sa.pc):
